@@ -543,8 +543,32 @@ BadCase(n, sd) ==
                           ELSE [b EXCEPT !.left = @ \o " q(X) :- p(X), X > 100."]
   IN [c EXCEPT !.id = "bad" \o ToString(n) \o "k" \o ToString(k)]
 
+\* ---------------------------------------------------------------- adversarial identifiers (C09, C12)
+\* predicate and constant names that collide with each other, with anthem's sort suffixes, with its renaming scheme, with the
+\* preamble vocabulary and with TPTP words
+IdP == <<"p", "_p", "p_i", "x_g", "p__s", "general", "symbol", "f__integer__", "p__less__", "c__infimum__", "tff", "type", "hp", "tp", "n_i", "a",
+         "p_1", "hq", "axiom", "s__a">>
+IdS == <<"a", "_a", "a_i", "b_g", "c_s", "a__s", "general", "symbol", "n_i", "p", "q", "tff", "c__infimum__", "n", "ha", "a0", "a_1", "ha__s", "ha_1", "b">>
+IdentCase(n, sd) ==
+  LET P == Pick(sd, IdP)
+      Sa == Pick(Nx(sd), IdS)
+      Sb == Pick(Mix(sd, 2), IdS)
+      k == n % 10
+      ug == "input: q/1. output: " \o P \o "/1. input: n -> integer."
+  IN CASE k = 0 -> [id |-> "id" \o ToString(n), task |-> "strong", left |-> P \o "(" \o Sa \o ") :- q(" \o Sb \o ").", right |-> P \o "(" \o Sa \o ") :- q(" \o Sb \o "), not q(X)."]
+       [] k = 1 -> [id |-> "id" \o ToString(n), task |-> "strong", left |-> Sa \o " :- q(" \o Sa \o "), not " \o P \o "(" \o Sb \o ").", right |-> Sa \o " :- q(" \o Sa \o ")."]
+       [] k = 2 -> [id |-> "id" \o ToString(n), task |-> "strong", left |-> P \o "(X) :- " \o P \o "(X, " \o Sa \o "), q(" \o Sb \o ").", right |-> P \o "(X) :- " \o P \o "(X, " \o Sa \o ")."]
+       [] k = 3 -> [id |-> "id" \o ToString(n), task |-> "strong", left |-> P \o "(" \o P \o ") :- q(" \o Sa \o ", " \o Sb \o ").", right |-> P \o "(" \o P \o ") :- q(" \o Sa \o ", " \o Sb \o "), " \o Sa \o " < " \o Sb \o "."]
+       [] k = 4 -> [id |-> "id" \o ToString(n), task |-> "external", left |-> P \o "(X) :- q(X), X != " \o Sa \o ", X > n.", right |-> P \o "(X) :- q(X), X > n, X != " \o Sa \o ", X != " \o Sb \o ".", ug |-> ug]
+       [] k = 5 -> [id |-> "id" \o ToString(n), task |-> "external", left |-> P \o "(X) :- q(X), not " \o Sa \o ". " \o Sa \o " :- q(" \o Sa \o ").", right |-> P \o "(X) :- q(X), not q(" \o Sa \o ").", ug |-> ug]
+       [] k = 6 -> [id |-> "id" \o ToString(n), task |-> "external", spec |-> "spec: forall X (" \o P \o "(X) <-> q(X) and X != " \o Sa \o " and n < X).", right |-> P \o "(X) :- q(X), X != " \o Sa \o ", X > n.", ug |-> ug]
+       [] k = 7 -> [id |-> "id" \o ToString(n), task |-> "external", left |-> P \o "(X) :- q(X), " \o Sa \o "(X). " \o Sa \o "(X) :- q(X), X != " \o Sa \o ".", right |-> P \o "(X) :- q(X), X != " \o Sa \o ".", ug |-> ug]
+       [] k = 8 -> [id |-> "id" \o ToString(n), task |-> "strong", left |-> "p(" \o Sa \o "). p(" \o Sb \o "). " \o P \o ".", right |-> "p(" \o Sb \o "). p(" \o Sa \o "). " \o P \o " :- not not " \o P \o "."]
+       [] k = 9 -> [id |-> "id" \o ToString(n), task |-> "external", left |-> P \o "(X) :- q(X), X = " \o Sa \o ".", right |-> P \o "(" \o Sa \o ") :- q(" \o Sa \o ").", ug |-> ug \o " input: " \o Sb \o "."]
+
 Case(n, sd) ==
   CASE Mode = "program" -> ProgramCase(n, sd)
+    [] Mode = "ident" -> IdentCase(n, sd)
     [] Mode = "extbad" -> BadCase(n, sd)
     [] Mode = "absprog" -> AbsCase(n)
     [] Mode = "cycle" -> CycleCase(n, sd)
